@@ -21,6 +21,15 @@ KERNELS = {
 }
 
 
+import glob
+import importlib.util
+for _f in sorted(glob.glob(os.path.join(os.path.dirname(os.path.abspath(__file__)), 'kspec_*.py'))):
+    _sp = importlib.util.spec_from_file_location(os.path.basename(_f)[:-3], _f)
+    _m = importlib.util.module_from_spec(_sp)
+    _sp.loader.exec_module(_m)
+    KERNELS.update(_m.KERNELS)
+
+
 def generate(name, outdir):
     """(re)write outdir/<name>.v if its content changed; return (ok, message)."""
     src, specs = KERNELS[name]
